@@ -342,6 +342,11 @@ func init() {
 				c05LedgerWorker(w)
 				return
 			}
+			if w.Batch == w.Batches-3 {
+				// a wallet drained to exactly zero between two truncations, then overspend probes: a balance of zero is a
+				// balance (the checkpoint of the first truncation must not outlive the second)
+				c06Drained(w, []string{"C05"})
+			}
 			if w.Batch == w.Batches-2 {
 				// a ledger history with amounts near 2^63 hopping through several wallets and being checkpointed: no
 				// value may be created or destroyed (checkpoint funds = net flow, balances unchanged, supply conserved)
